@@ -1,4 +1,5 @@
 import Orca.Lemmas.Comp
+import Orca.Gen.DefTypes
 /-!
 # C27 — component round trip preserves structure at any nesting depth
 
@@ -65,6 +66,26 @@ theorem c27_record_replay_roundtrip {κ α : Type} [DecidableEq κ] (sections : 
 
 example : record [(0, [10]), (1, [11]), (0, [12]), (0, [13, 16]), (2, ([] : List Nat)), (0, [15])]
     = [(1, 0), (1, 1), (3, 0), (0, 2), (1, 0)] := by decide
+
+/-! ### the hand-written re-encoding of defined types -/
+
+/-- the encoder method each variant of `wasmparser::ComponentDefinedType` has to be re-encoded with (reviewed by hand against
+    wasm-encoder's `ComponentDefinedTypeEncoder`) -/
+def specDefMethod : String → String
+  | "Primitive" => "primitive" | "Record" => "record" | "Variant" => "variant" | "List" => "list" | "Tuple" => "tuple"
+  | "Flags" => "flags" | "Enum" => "enum_type" | "Option" => "option" | "Result" => "result" | "Own" => "own" | "Borrow" => "borrow"
+  | "Future" => "future" | "Stream" => "stream" | "FixedSizeList" => "fixed_size_list" | _ => "?"
+
+/-- **every arm re-encodes its own variant**: in both places where wirm re-encodes a component defined type by hand (`encode_comp`
+    for the component's own type section, `convert_component_type` for types nested in component / instance type declarations), each
+    arm over `ComponentDefinedType` calls the encoder method of that variant and no other (the arms are regenerated from the source
+    on every run; F22 — a `stream` written as a `future` — was an arm that did not), and both places cover all fourteen variants. -/
+theorem c27_defined_type_arms :
+    Orca.Gen.definedTypeArms.all (fun a => !a.2.2.isEmpty && a.2.2.all (· == specDefMethod a.2.1)) = true
+    ∧ ["component.rs", "wrappers.rs"].all (fun s =>
+        ["Primitive", "Record", "Variant", "List", "Tuple", "Flags", "Enum", "Option", "Result", "Own", "Borrow", "Future", "Stream",
+         "FixedSizeList"].all (fun v => Orca.Gen.definedTypeArms.any (fun a => a.1 == s && a.2.1 == v))) = true := by
+  decide
 
 /-! non-vacuity (decided): depth 3 — the shape of the repaired defect F21: the root owns the outer component only; the
     sections that follow the innermost module are not the root's -/
